@@ -33,6 +33,19 @@ The `ArgSpec` holds a dictionary from strings to lists of parameters.
 """
 
 
+_STRING_ESCAPES = {
+    "\\": "\\\\",
+    '"': '\\"',
+    "\n": "\\n",
+    "\r": "\\0D",
+    "\f": "\\0C",
+    "\v": "\\0B",
+}
+"""
+Characters that cannot appear verbatim in a string literal of a pipeline spec.
+"""
+
+
 @dataclass(eq=True, frozen=True)
 class ArgSpec:
     """
@@ -63,7 +76,7 @@ class ArgSpec:
             case bool():
                 return str(arg).lower()
             case str():
-                return f'"{arg}"'
+                return '"' + "".join(_STRING_ESCAPES.get(c, c) for c in arg) + '"'
             case int():
                 return str(arg)
             case float():
@@ -293,7 +306,10 @@ _lexer_rules: list[tuple[re.Pattern[str], SpecTokenKind]] = [
     (re.compile(r"[0-9]+[A-Za-z_-]+[A-Za-z0-9_-]*"), SpecTokenKind.IDENT),
     (re.compile(r"[-+]?[0-9]+(\.[0-9]*([eE][-+]?[0-9]+)?)?"), SpecTokenKind.NUMBER),
     (re.compile(r"[A-Za-z0-9_-]+"), SpecTokenKind.IDENT),
-    (re.compile(r'"(\\[nfvtr"\\]|[^\n\f\v\r"\\])*"'), SpecTokenKind.STRING_LIT),
+    (
+        re.compile(r'"(\\[nfvtr"\\]|\\[0-9a-fA-F]{2}|[^\n\f\v\r"\\])*"'),
+        SpecTokenKind.STRING_LIT,
+    ),
     (re.compile(r'\[(\\[nfvtr"\\]|[^\n\f\v\r\]\\])*\]'), SpecTokenKind.MLIR_PIPELINE),
     (re.compile(r"\{"), SpecTokenKind.L_BRACE),
     (re.compile(r"}"), SpecTokenKind.R_BRACE),
